@@ -40,6 +40,8 @@ mod gossip_loop;
 mod manifest_race;
 mod exec_inline;
 mod orset;
+mod stream_glue;
+mod active_expiry;
 use std::panic;
 
 pub struct Found {
@@ -117,6 +119,8 @@ fn main() {
         "manifest_race" => manifest_race::search(&pid, &oid, seed),
         "exec_inline" => exec_inline::search(&pid, &oid, seed),
         "orset" => orset::search(&pid, &oid, seed),
+        "stream_glue" => stream_glue::search(&pid, &oid, seed),
+        "active_expiry" => active_expiry::search(&pid, &oid, seed),
         _ => None,
     };
     match res {
